@@ -1365,7 +1365,7 @@ func (e *Exec) stdlibCall(st *State, call *ast.CallExpr, fn *types.Func, key str
 		little := strings.Contains(recv.Ty.String(), "littleEndian")
 		if need > 0 && len(args) > 0 && args[0].T.Sort == SSlice {
 			e.oblige(st, "idx", "", Ge(SLen(args[0].T), IntLit(need)), fmt.Sprintf("encoding/binary %s: buffer holds at least %d bytes", fn.Name(), need), call.Pos())
-			e.note("stdlib", "encoding/binary fixed-size accessors: panic iff the buffer is too short; little-endian byte order modelled exactly (value = sum of b[i]*256^i)")
+			e.note("stdlib", "encoding/binary fixed-size accessors: panic iff the buffer is too short; 16/32-bit little- and big-endian byte order modelled exactly (value = sum of b[i]*256^i resp. b[i]*256^(n-1-i)), 64-bit values arbitrary")
 			sig := fn.Type().(*types.Signature)
 			bt := types.Typ[types.Uint8]
 			key := elemKey(bt)
@@ -1374,13 +1374,18 @@ func (e *Exec) stdlibCall(st *State, call *ast.CallExpr, fn *types.Func, key str
 			byteAt := func(i int64) Term { return e.loadElem(st, b, bt, IntLit(i)) }
 			if strings.HasPrefix(fn.Name(), "Put") {
 				v := e.toSort(args[1].T, SInt)
-				if !little || need > 4 {
+				big := strings.Contains(recv.Ty.String(), "bigEndian")
+				if (!little && !big) || need > 4 {
 					e.havocLocs(st, []modLoc{{key: key, ref: SRef(b), lo: SOff(b), hi: Add(SOff(b), IntLit(need)), isElem: true}}, call.Pos())
 					return nil, true
 				}
 				e.checkFrameRange(st, key, SRef(b), SOff(b), Add(SOff(b), IntLit(need)), call.Pos())
 				for i := int64(0); i < need; i++ {
-					e.storeElem(st, b, bt, IntLit(i), Mod(Div(v, pow2(uint(8*i))), IntLit(256)))
+					sh := uint(8 * i)
+					if big {
+						sh = uint(8 * (need - 1 - i))
+					}
+					e.storeElem(st, b, bt, IntLit(i), Mod(Div(v, pow2(sh)), IntLit(256)))
 				}
 				return nil, true
 			}
@@ -1390,6 +1395,14 @@ func (e *Exec) stdlibCall(st *State, call *ast.CallExpr, fn *types.Func, key str
 					sum = Add(sum, Mul(byteAt(i), pow2(uint(8*i))))
 				}
 				return []Term{e.bind("le", sum)}, true
+			}
+			if strings.Contains(recv.Ty.String(), "bigEndian") && need <= 4 {
+				// big endian: value = b[0]*256^(n-1) + ... + b[n-1]
+				sum := byteAt(need - 1)
+				for i := int64(0); i < need-1; i++ {
+					sum = Add(sum, Mul(byteAt(i), pow2(uint(8*(need-1-i)))))
+				}
+				return []Term{e.bind("be", sum)}, true
 			}
 			return []Term{e.havocValue(st, "le", sig.Results().At(0).Type())}, true
 		}
